@@ -550,7 +550,7 @@ def run(ctx):
                           f'engine reads a different type from {A(ps)[:300]}: name {A(d[0])} read as {A(d[1])}', dict(w, parsable=ps, want=want, got=got))
 
     # ---- phase types --------------------------------------------------------------------------------------
-    N = ctx.pick(6_000, 40_000)
+    N = ctx.pick(6_000, 25_000)
     stats = {}
     for i, rng in ctx.cases(N, 'types'):
         t = G.gen_type(rng, depth=rng.choice([1, 2, 3, 4, 4]), mode='any', stats=stats)
@@ -566,7 +566,7 @@ def run(ctx):
             ctx.count('constructor[' + k + ']', v)
 
     # ---- phase names --------------------------------------------------------------------------------------
-    N = ctx.pick(12_000, 60_000)
+    N = ctx.pick(12_000, 40_000)
     for i, rng in ctx.cases(N, 'names'):
         name, cat = G.gen_name(rng)
         check_name(name, cat, parse_too=(i % 4 == 0))
@@ -600,6 +600,24 @@ def run(ctx):
 
 
 # -------------------------------------------------------------------------------------------------
-# Validation record (scratch worktree /tmp/scratch-types, quick tier, VERIF_REPO=... ; baseline for the breaks is the
-# tree WITH proposed_fixes/C31-*.diff applied, which is silent):
-#   see bottom of file after validation
+# Validation record (scratch worktree of /repo HEAD, VERIF_REPO=<scratch>, quick tier, seed 0).
+#
+# Unchanged tree: Oracle A silent; Oracle B reports 7 mechanism keys, all genuine (see proposed_fixes/C31-engine-lexer-escapes.diff):
+#   engine-lexer/x-escape-rejected                       escape_parsable('\xe9') = `\xe9`            escape set of IRLexer.quotedLiteral has no 'x'
+#   engine-lexer/U-escape-rejected                       escape_parsable('\U0001f600') = `\U0001f600` ... and no 'U'
+#   engine-lexer/bare-identifier-number-other            escape_parsable('a\xb2') = a\xb2 (bare)      Python \w accepts category No, isJavaIdentifierPart does not
+#   engine-lexer/bare-identifier-astral                  escape_parsable('a\U0001d41a') bare          UTF-16 surrogates are never Java identifier parts
+#   engine-lexer/escape_id-bare-identifier-number-other  escape_id('a\xb2') bare
+#   engine-lexer/escape_id-bare-identifier-astral        escape_id('a\U0001d41a') bare
+#   engine-lexer/escape_id-astral-misdecoded             escape_id('\U0001f600') = `\u1F600` -> engine reads U+1F60 followed by '0'
+# With the proposed fix applied: exit 0, seeds 0..4, both tiers.
+#
+# Breaks tried on top of the fixed tree, one at a time (all exit 1 in the quick tier):
+#   B1 unescape_parsable no longer un-escapes \`                          caught  roundtrip/not-equal
+#   B2 escape_parsable lets digits-first names go bare ([_a-zA-Z0-9]\w*)  caught  engine-lexer/structure-differs (lexer reads an integer token)
+#   S3 visit_escaped_identifier uses node.text.strip('`') instead of [1:-1] (only names starting/ending with a backtick)
+#                                                                          caught  roundtrip/parse-error
+#   S4 escape_parsable spells U+000B as \v (Python reads it back; engine escape set lacks v; only vertical tab)
+#                                                                          caught  engine-lexer/v-escape-rejected
+# No false alarm was found in the parsimonious shim; names with a high surrogate directly followed by a low surrogate are excluded
+# from the domain (a JVM cannot tell them from the astral character).
